@@ -335,8 +335,46 @@ def norm(a, b):
     return a, b
 
 
+def knock_scenario(rng):
+    """a gin rummy game at the knock decision, built for lay-offs: the knocker's melds come from a dense sub-deck, the
+    defender holds ten cards of the same ranks (cards that fit a set AND a run of the knocker, chains behind them)"""
+    for _ in range(60):
+        ranks = rng.sample("A23456789TJQK", rng.choice([5, 6, 7]))
+        sub = [r + s for r in ranks for s in gin.SU]
+        kh = rng.sample(sub, 10)
+        legal = gin.all_melds(kh)
+        opp = []; used = set()
+        for m in rng.sample(legal, len(legal)):
+            if not (m & used) and len(opp) < 3:
+                opp.append(sorted(m)); used |= m
+        if not opp or gin.dw([c for c in kh if c not in used]) > 10:
+            continue
+        rest = [c for c in sub if c not in kh]
+        if len(rest) < 10:
+            continue
+        dh = rng.sample(rest, 10)
+        others = [c for c in gin.CARDS if c not in kh and c not in dh]
+        rng.shuffle(others)
+        for m in opp:
+            rng.shuffle(m)
+        p1k = rng.random() < 0.5
+        case = {"variant": "rummy", "max_turns": None, "deck": others[1:], "discard": [others[0]],
+                "p1": kh if p1k else dh, "p2": dh if p1k else kh, "turn": "p1-may-knock" if p1k else "p2-may-knock",
+                "shuffle": [0, 0], "ops": [{"k": "knock", "knocks": True, "melds": opp if rng.random() < 0.85 else None}]}
+        return case
+    return None
+
+
 class C11(GinProp):
     pid = "C11"
+
+    def gen_case(self, rng):
+        if rng.random() < 0.25:
+            c = knock_scenario(rng)
+            if c is not None:
+                return c
+        return super().gen_case(rng)
+
     title = "ending and scoring: gin / knock+undercut / wall exactly when the rules say, with the right points"
     fields = ("complete", "p1_points", "p2_points")
     compare_results = False
@@ -442,6 +480,20 @@ class C17(GinProp):
     probes = 0
     rule = ("both players' views and the public card map after every move of random games, incl. ricky games through stock "
             "exhaustion and reshuffles; non-trivial = game with >= 3 accepted moves")
+
+    def gen_case(self, rng):
+        case = gin.gen_game(rng)
+        if rng.random() < 0.1:
+            # a game (re)started with an explicitly EMPTY public card map (nothing is asserted about any card): everything the
+            # property demands of the map and of the views still applies; the Lean model always starts from the up-card entry,
+            # so these cases are judged by the oracle alone
+            case["hud0"] = "empty"
+        return gin.play(rng, case, probes=self.probes)
+
+    def correspondence(self, case, evs):
+        if case.get("hud0"):
+            return []
+        return super().correspondence(case, evs)
 
     def oracle(self, case, evs):
         why = []
@@ -722,11 +774,13 @@ class C19(Prop):
     def setup(self):
         super().setup()
         from card_utils.games.gin.ricky import utils as ku
+        from card_utils.games.gin.ricky.game_state import GinRickyGameState
         self.ku = ku
+        self.GS = GinRickyGameState
 
     def generate(self, rng, tier, shard):
         while True:
-            c = {"hand": gin.dense_cards(rng, rng.choice([7, 8]))}
+            c = {"hand": gin.dense_cards(rng, rng.choice([7, 8])), "own": rng.random() < 0.4}
             if rng.random() < 0.25:
                 c["pre"] = rng.randrange(1, 1 << 16)
             yield c
@@ -747,7 +801,19 @@ class C19(Prop):
             gin.helper_prelude(case["hand"], case["pre"])
         try:
             s, p = self.ku.sorted_hand_points(list(case["hand"]))
-            return {"points": p, "sorted": list(s), "hp": self.ku.hand_points(list(case["hand"])), "sh": list(self.ku.sort_hand(list(case["hand"])))}
+            out = {"points": p, "sorted": list(s), "hp": self.ku.hand_points(list(case["hand"])), "sh": list(self.ku.sort_hand(list(case["hand"])))}
+            # the same through the game class's own entry points; `own` cases: a caller that keeps the list sort_hand gave it
+            # for the previous hand, rewrites it in place into this hand and has it valued (it owns that list)
+            kept = self.__dict__.get("_kept")
+            if case.get("own") and kept is not None:
+                kept[:] = list(case["hand"])
+                out["gd"] = self.GS.get_deadwood(kept)
+            else:
+                out["gd"] = self.GS.get_deadwood(list(case["hand"]))
+            sh = self.GS.sort_hand(list(case["hand"]))
+            out["gsh"] = list(sh)
+            self._kept = sh
+            return out
         except Exception as e:
             return {"exc": type(e).__name__}
 
@@ -762,9 +828,9 @@ class C19(Prop):
         if "err" in mo or io["points"] != mo["points"]:
             agree = False; why.append(f"points impl={io['points']} model={mo.get('points', mo)}")
         spec = gin.ricky_value(hand)
-        if io["points"] != spec or io["hp"] != spec:
-            holds = False; why.append(f"{hand}: value {io['points']}/{io['hp']}, the 3+4 rule gives {spec}")
-        for s in (io["sorted"], io["sh"]):
+        if io["points"] != spec or io["hp"] != spec or io.get("gd", spec) != spec:
+            holds = False; why.append(f"{hand}: value {io['points']}/{io['hp']}/{io.get('gd')}, the 3+4 rule gives {spec}")
+        for s in (io["sorted"], io["sh"], io.get("gsh", hand)):
             if ms(s) != ms(hand):
                 holds = False; why.append(f"sorted hand {s} is not a permutation of {hand}"); break
         m3 = gin.all_melds(hand, run_lens=(3,), set_sizes=(3,)); m4 = gin.all_melds(hand, run_lens=(4,), set_sizes=(4,))
